@@ -49,7 +49,7 @@ func TestMain(m *testing.M) {
 	if os.Getenv("C20_CHILD") != "" {
 		os.Exit(firstUseChild(os.Getenv("C20_CHILD")))
 	}
-	R.Require("op:cache", "op:sm4_block", "op:sm3", "op:sm2_sign", "op:sm2_verify", "op:sm2_decrypt", "op:x509_verify", "op:pkcs7_ber", "op:sm4_mode", "goroutines>=16", "first_use", "shared_config_gm", "shared_config_tls", "conn_multi_writer", "conn_multi_reader", "conn_close_concurrent", "rotation_concurrent", "cache_multikey_warm", "conn_hostile_record")
+	R.Require("close_while_write_blocked", "op:cache", "op:sm4_block", "op:sm3", "op:sm2_sign", "op:sm2_verify", "op:sm2_decrypt", "op:x509_verify", "op:pkcs7_ber", "op:sm4_mode", "goroutines>=16", "first_use", "shared_config_gm", "shared_config_tls", "conn_multi_writer", "conn_multi_reader", "conn_close_concurrent", "rotation_concurrent", "cache_multikey_warm", "conn_hostile_record")
 	hx.Main(m, R)
 }
 
@@ -757,6 +757,68 @@ func issuedTicket(log []rgmssl.Chunk) []byte {
 		hs = hs[4+n:]
 	}
 	return nil
+}
+
+// Close while a Write of another goroutine is stuck in the transport (the peer has stopped reading): Close must not queue
+// up behind that Write - it returns, and the stuck Write comes back with an error. net.Pipe is synchronous, so a 64 KiB
+// Write that nobody reads is stuck for good; nothing else runs, so "does not return within 30 s" is a verdict about the
+// interlock, not about the machine.
+func TestC20_CloseWhileWriteBlocked(t *testing.T) {
+	p := tlsx.GetPKI()
+	for i, mode := range []string{"gm_cbc", "gm_gcm", "tls"} {
+		for _, closer := range []string{"writer_side_close", "writer_side_close_twice"} {
+			var cc, sc *gmtls.Config
+			id := fmt.Sprint("cwb", i, closer)
+			switch mode {
+			case "gm_cbc", "gm_gcm":
+				cc, sc = tlsx.GMClient(p, "c"+id), tlsx.GMServer(p, "s"+id)
+				suite := tlsx.GMECCSM4CBCSM3
+				if mode == "gm_gcm" {
+					suite = tlsx.GMECCSM4GCMSM3
+				}
+				cc.CipherSuites, sc.CipherSuites = []uint16{suite}, []uint16{suite}
+			default:
+				cc, sc = tlsx.TLSClient(p, "c"+id), tlsx.TLSServer(p, p.RSASrv, "s"+id)
+			}
+			c0, c1 := net.Pipe()
+			client, server := gmtls.Client(c0, cc), gmtls.Server(c1, sc)
+			var hs sync.WaitGroup
+			var e0, e1 error
+			hs.Add(2)
+			go func() { defer hs.Done(); e0 = client.Handshake() }()
+			go func() { defer hs.Done(); e1 = server.Handshake() }()
+			if _, hung := hx.TryBounded(60*time.Second, hs.Wait); hung || e0 != nil || e1 != nil {
+				t.Fatalf("harness: handshake over net.Pipe failed (%s): hung=%v %v %v", mode, hung, e0, e1)
+			}
+			// the server never reads again; the client's Write gets stuck in the pipe
+			wrote := make(chan error, 1)
+			go func() {
+				_, err := client.Write(bytes.Repeat([]byte{0x5a}, 64<<10))
+				wrote <- err
+			}()
+			for k := 0; k < 200; k++ {
+				runtime.Gosched()
+			}
+			time.Sleep(20 * time.Millisecond)
+			if _, hung := hx.TryBounded(30*time.Second, func() {
+				client.Close()
+				if closer == "writer_side_close_twice" {
+					client.Close()
+				}
+			}); hung {
+				hx.Hang(R, "TestC20_CloseWhileWriteBlocked", fmt.Sprintf("Close does not return while a Write of another goroutine is stuck in the transport (%s)", mode))
+			}
+			var werr error
+			if _, hung := hx.TryBounded(30*time.Second, func() { werr = <-wrote }); hung {
+				hx.Hang(R, "TestC20_CloseWhileWriteBlocked", fmt.Sprintf("the stuck Write does not come back after Close (%s)", mode))
+			}
+			if werr == nil {
+				t.Fatalf("a 64 KiB Write that nobody read reported success after Close (%s)", mode)
+			}
+			c1.Close()
+			R.Case(true, hx.HashKey("cwb", mode, closer), "close_while_write_blocked")
+		}
+	}
 }
 
 // keyLog is a plain, unsynchronised io.Writer handed to several Config values as KeyLogWriter: the library promises to
